@@ -69,6 +69,7 @@ def _plan(draw, max_rows):
     if h in ("std", "var") and draw(st.booleans()):
         hx["args"]["ddof"] = draw(st.sampled_from([0, 1]))
     plan = {"frame": {"n": n, "cols": cols}, "by": [f"g{j}" for j in draw(st.permutations(range(nk)))], "hx": hx}
+    draw(gen.decorate(plan["frame"]))
     if n and n <= 40 and draw(st.integers(0, 3)) == 0:
         edits = []
         for _ in range(draw(st.integers(1, 3))):
